@@ -33,9 +33,10 @@ import (
 )
 
 type LockOp struct {
-	Kind string `json:"k"` // lock unlock rlock runlock
-	M    string `json:"m"` // mutex instance path
-	Site string `json:"site"`
+	Kind string      `json:"k"` // lock unlock rlock runlock; race model: acc
+	M    string      `json:"m"` // mutex instance path
+	Site string      `json:"site"`
+	Acc  [][3]string `json:"acc,omitempty"` // acc: the accesses (kind, location, site) of one lock-free stretch of code
 }
 
 type Program struct {
@@ -53,6 +54,7 @@ type extractor struct {
 	gocnt  int
 	fset   *token.FileSet
 	dbType types.Type
+	acc    bool // also emit the accesses ("rd" / "wr") to fields of the shared structures (race model)
 }
 
 type frame struct {
@@ -73,13 +75,15 @@ type builder struct {
 	ex      *extractor
 	p       *Program
 	path    []*types.Func
-	inDefer int // > 0 while emitting deferred calls: their run-time position is the return, not the defer statement
+	inDefer int   // > 0 while emitting deferred calls: their run-time position is the return, not the defer statement
+	marks   []int // positions handed out by pos(): an epsilon edge may start or end there later
 }
 
 func main() {
 	dir := flag.String("dir", "/repo", "package directory")
 	out := flag.String("out", "", "output TLA+ module (SodLockFacts.tla)")
 	jout := flag.String("json", "", "output JSON")
+	rout := flag.String("race", "", "output TLA+ module with the accesses to shared fields as well (SodRaceFacts.tla)")
 	flag.Parse()
 	cfg := &packages.Config{Mode: packages.NeedTypes | packages.NeedSyntax | packages.NeedTypesInfo | packages.NeedName | packages.NeedImports | packages.NeedDeps | packages.NeedFiles, Dir: *dir}
 	pkgs, err := packages.Load(cfg, ".")
@@ -138,7 +142,30 @@ func main() {
 		os.WriteFile(*jout, b, 0o644)
 	}
 	if *out != "" {
-		os.WriteFile(*out, []byte(tla(list)), 0o644)
+		os.WriteFile(*out, []byte(tla(list, false)), 0o644)
+	}
+	if *rout != "" {
+		// second pass: the same programs with the accesses to the fields of the shared structures in between
+		ex.acc, ex.progs = true, map[string]*Program{}
+		for _, fn := range entries {
+			ex.build(fullName(fn), fn, nil)
+		}
+		rnames := make([]string, 0, len(ex.progs))
+		for n := range ex.progs {
+			rnames = append(rnames, n)
+		}
+		sort.Strings(rnames)
+		rlist := []*Program{}
+		nacc := 0
+		for _, n := range rnames {
+			rlist = append(rlist, ex.progs[n])
+			for _, o := range ex.progs[n].Ops {
+				nacc += len(o.Acc)
+			}
+		}
+		txt := strings.Replace(tla(rlist, true), "MODULE SodLockFacts", "MODULE SodRaceFacts", 1)
+		os.WriteFile(*rout, []byte(txt), 0o644)
+		fmt.Printf("extract: %d accesses to shared fields\n", nacc)
 	}
 	nops := 0
 	for _, p := range list {
@@ -181,7 +208,10 @@ func (ex *extractor) build(name string, fn *types.Func, lit *ast.FuncLit) *Progr
 	return p
 }
 
-func (b *builder) pos() int { return len(b.p.Ops) + 1 }
+func (b *builder) pos() int {
+	b.marks = append(b.marks, len(b.p.Ops)+1)
+	return len(b.p.Ops) + 1
+}
 
 func (b *builder) emit(kind, m string, at token.Pos) {
 	pos := b.ex.fset.Position(at)
@@ -190,6 +220,124 @@ func (b *builder) emit(kind, m string, at token.Pos) {
 		site = "defer"
 	}
 	b.p.Ops = append(b.p.Ops, LockOp{Kind: kind, M: m, Site: site})
+}
+
+// sharedTypes: the structures reachable from a handle by several goroutines
+var sharedTypes = map[string]bool{"DB": true, "Schema": true, "objIndex": true, "fieldIndex": true, "objectStore": true, "objectMap": true, "Async": true}
+
+// access emits a read or write of field sel of a shared structure (race model only).  The location is named after
+// the TYPE of the structure (robust against aliasing through local names); the two object stores of a handle (cache,
+// pending writes), which have locks of their own, are told apart by the instance path.
+func (b *builder) access(fr *frame, sel *ast.SelectorExpr, kind string) {
+	if !b.ex.acc {
+		return
+	}
+	s := b.ex.pkg.TypesInfo.Selections[sel]
+	if s == nil || s.Kind() != types.FieldVal {
+		return
+	}
+	t := s.Recv()
+	if p, ok := t.(*types.Pointer); ok {
+		t = p.Elem()
+	}
+	n, ok := t.(*types.Named)
+	if !ok || !sharedTypes[n.Obj().Name()] {
+		return
+	}
+	if v, ok := s.Obj().(*types.Var); ok && isSyncMutex(v.Type()) {
+		return
+	}
+	if strings.HasPrefix(b.pathOf(fr, sel.X), "!fresh") {
+		return
+	}
+	loc := n.Obj().Name() + "." + sel.Sel.Name
+	if n.Obj().Name() == "objectStore" || n.Obj().Name() == "objectMap" {
+		p := b.pathOf(fr, sel.X)
+		switch {
+		case strings.Contains(p, "db.cache"):
+			loc += "@cache"
+		case strings.Contains(p, "db.asyncw"):
+			loc += "@asyncw"
+		}
+	}
+	pos := b.ex.fset.Position(sel.Pos())
+	site := fmt.Sprintf("%s:%d", shortFile(pos.Filename), pos.Line)
+	if len(b.path) > 0 {
+		site = fullName(b.path[len(b.path)-1]) + "@" + site // the function the access is in: stable when lines move
+	}
+	// the accesses between two lock operations form ONE step of the race model (their order is irrelevant to it);
+	// a position that is the source or target of an epsilon edge starts a new step
+	k := len(b.p.Ops)
+	merge := k > 0 && b.p.Ops[k-1].Kind == "acc"
+	for _, e := range b.p.Eps {
+		if e[0] == k+1 || e[1] == k+1 {
+			merge = false
+		}
+	}
+	for _, m := range b.marks {
+		if m == k+1 {
+			merge = false
+		}
+	}
+	if !merge {
+		b.p.Ops = append(b.p.Ops, LockOp{Kind: "acc"})
+		k++
+	}
+	op := &b.p.Ops[k-1]
+	for _, a := range op.Acc {
+		if a[0] == kind && a[1] == loc {
+			return
+		}
+	}
+	op.Acc = append(op.Acc, [3]string{kind, loc, site})
+}
+
+// fresh: the expression yields a structure that was just allocated (composite literal, new, a constructor of this
+// package: new... / empty... / make...), or is itself a fresh local
+func (b *builder) fresh(fr *frame, e ast.Expr) bool {
+	switch x := e.(type) {
+	case *ast.CompositeLit:
+		return true
+	case *ast.UnaryExpr:
+		return x.Op == token.AND && b.fresh(fr, x.X)
+	case *ast.ParenExpr:
+		return b.fresh(fr, x.X)
+	case *ast.Ident:
+		if obj := b.ex.pkg.TypesInfo.Uses[x]; obj != nil {
+			return fr.env[obj] == "!fresh"
+		}
+	case *ast.CallExpr:
+		if id, ok := x.Fun.(*ast.Ident); ok {
+			n := strings.ToLower(id.Name)
+			if n == "new" || n == "make" {
+				return true
+			}
+			if fn, ok := b.ex.pkg.TypesInfo.Uses[id].(*types.Func); ok {
+				if _, ours := b.ex.funcs[fn]; ours && (strings.HasPrefix(n, "new") || strings.HasPrefix(n, "empty") || strings.HasPrefix(n, "make")) {
+					return true
+				}
+			}
+		}
+	}
+	return false
+}
+
+// written emits the write of an assignment target (the container for an element) and visits the rest as reads
+func (b *builder) written(fr *frame, e ast.Expr) {
+	switch x := e.(type) {
+	case *ast.IndexExpr:
+		b.expr(fr, x.Index)
+		b.written(fr, x.X)
+	case *ast.ParenExpr:
+		b.written(fr, x.X)
+	case *ast.StarExpr:
+		b.expr(fr, x.X)
+	case *ast.SelectorExpr:
+		b.expr(fr, x.X)
+		b.access(fr, x, "wr")
+	default:
+		b.expr(fr, e)
+	}
 }
 
 func shortFile(f string) string {
@@ -373,7 +521,7 @@ func (b *builder) stmt(fr *frame, s ast.Stmt) {
 			b.expr(fr, e)
 		}
 		for _, e := range x.Lhs {
-			b.expr(fr, e)
+			b.written(fr, e)
 		}
 		// a local name for something reachable from the handle keeps its instance path
 		if len(x.Rhs) == 1 && len(x.Lhs) >= 1 {
@@ -384,6 +532,9 @@ func (b *builder) stmt(fr *frame, s ast.Stmt) {
 				}
 				if p := b.pathOf(fr, x.Rhs[0]); obj != nil && !strings.HasPrefix(p, "?") && strings.HasPrefix(p, "db") {
 					fr.env[obj] = p
+				} else if obj != nil && b.fresh(fr, x.Rhs[0]) {
+					// a structure allocated here and not published yet: nobody else can reach it
+					fr.env[obj] = "!fresh"
 				}
 			}
 		}
@@ -391,8 +542,13 @@ func (b *builder) stmt(fr *frame, s ast.Stmt) {
 		if gd, ok := x.Decl.(*ast.GenDecl); ok {
 			for _, sp := range gd.Specs {
 				if vs, ok := sp.(*ast.ValueSpec); ok {
-					for _, e := range vs.Values {
+					for i, e := range vs.Values {
 						b.expr(fr, e)
+						if i < len(vs.Names) && b.fresh(fr, e) {
+							if obj := b.ex.pkg.TypesInfo.Defs[vs.Names[i]]; obj != nil {
+								fr.env[obj] = "!fresh"
+							}
+						}
 					}
 				}
 			}
@@ -499,7 +655,7 @@ func (b *builder) stmt(fr *frame, s ast.Stmt) {
 		b.expr(fr, x.Chan)
 		b.expr(fr, x.Value)
 	case *ast.IncDecStmt:
-		b.expr(fr, x.X)
+		b.written(fr, x.X)
 	case *ast.BranchStmt, *ast.EmptyStmt:
 	}
 }
@@ -513,7 +669,17 @@ func (b *builder) expr(fr *frame, e ast.Expr) {
 		switch x := n.(type) {
 		case *ast.FuncLit:
 			return false // a closure that is only created, not called here
+		case *ast.SelectorExpr:
+			b.expr(fr, x.X)
+			b.access(fr, x, "rd")
+			return false
 		case *ast.CallExpr:
+			if id, ok := x.Fun.(*ast.Ident); ok && id.Name == "delete" && len(x.Args) == 2 {
+				// delete(m, k) writes the map
+				b.expr(fr, x.Args[1])
+				b.written(fr, x.Args[0])
+				return false
+			}
 			// arguments first
 			for _, a := range x.Args {
 				b.expr(fr, a)
@@ -596,7 +762,7 @@ func embeddedName(s *types.Selection) string {
 
 func tlaStr(s string) string { return `"` + strings.ReplaceAll(s, `"`, `'`) + `"` }
 
-func tla(list []*Program) string {
+func tla(list []*Program, race bool) string {
 	var sb strings.Builder
 	sb.WriteString("---------------------------- MODULE SodLockFacts ----------------------------\n")
 	sb.WriteString("(* GENERATED by /verif/tools/extract from the current source of the sod package. *)\n")
@@ -608,7 +774,17 @@ func tla(list []*Program) string {
 	for i, p := range list {
 		ops := []string{}
 		for _, o := range p.Ops {
-			mut[o.M] = true
+			if o.Kind != "acc" {
+				mut[o.M] = true
+			}
+			if race {
+				as := []string{}
+				for _, a := range o.Acc {
+					as = append(as, fmt.Sprintf("<<%s, %s, %s>>", tlaStr(a[0]), tlaStr(a[1]), tlaStr(a[2])))
+				}
+				ops = append(ops, fmt.Sprintf("[k |-> %s, m |-> %s, site |-> %s, a |-> {%s}]", tlaStr(o.Kind), tlaStr(o.M), tlaStr(o.Site), strings.Join(as, ", ")))
+				continue
+			}
 			ops = append(ops, fmt.Sprintf("[k |-> %s, m |-> %s, site |-> %s]", tlaStr(o.Kind), tlaStr(o.M), tlaStr(o.Site)))
 		}
 		eps := []string{}
